@@ -89,6 +89,22 @@ theorem lsb_bijection (w : BitVec 64) (hw : w ≠ 0) :
     intoLsb w ≠ 0 ∧ fromLsb w ≠ 0 ∧ fromLsb (intoLsb w) = w ∧ intoLsb (fromLsb w) = w :=
   ⟨intoLsb_ne_zero w hw, fromLsb_ne_zero w hw, fromLsb_intoLsb w hw, intoLsb_fromLsb w hw⟩
 
+/-- The public constructors: `new` and `new_from_lsb` refuse exactly zero; `new_from_lsb` is the inverse of
+`into_lsb` on every key and is defined on **every** non-zero word (also those with the top bit set: the LSB forms
+of full keys); `clear` gives the empty key. -/
+theorem constructors (v : BitVec 64) :
+    (new_ v = none ↔ v = 0) ∧ (newFromLsb v = none ↔ v = 0) ∧
+    (v ≠ 0 → new_ v = some v ∧ newFromLsb (intoLsb v) = some v ∧
+      ∃ p, newFromLsb v = some p ∧ p ≠ 0 ∧ intoLsb p = v) ∧
+    clear v = EMPTY := by
+  refine ⟨?_, ?_, ?_, rfl⟩
+  · by_cases h : v = 0 <;> simp [new_, h]
+  · by_cases h : v = 0 <;> simp [newFromLsb, h]
+  · intro h
+    refine ⟨by rw [new_, if_neg h], ?_, ?_⟩
+    · rw [newFromLsb, if_neg (intoLsb_ne_zero v h), fromLsb_intoLsb v h]
+    · exact ⟨fromLsb v, by rw [newFromLsb, if_neg h], fromLsb_ne_zero v h, intoLsb_fromLsb v h⟩
+
 /-- … that preserves the stored fields: the LSB form is `2^len + content`. -/
 theorem lsb_preserves (l c : BitVec 64) (h : Valid l c) :
     intoLsb (reprW l c) = ((1 : BitVec 64) <<< l) ||| c ∧
